@@ -115,9 +115,15 @@ func NewSubscriberWithConcurrencyMode[T any](destination Observer[T], mode Concu
 // newSubscriberImpl creates a new subscriber implementation with the specified
 // synchronization behavior and destination observer.
 func newSubscriberImpl[T any](mode ConcurrencyMode, mu xsync.Mutex, backpressure Backpressure, destination Observer[T]) Subscriber[T] {
-	// Protect against multiple encapsulation layers.
+	// Protect against multiple encapsulation layers. An existing subscriber is reused only when it
+	// gives at least the guarantee that is requested here: a producer that was promised a serializing
+	// subscriber (safe or eventually-safe mode) must not be handed the non-locking subscriber created
+	// by an upstream pass-through operator.
 	if subscriber, ok := destination.(Subscriber[T]); ok {
-		return subscriber
+		impl, isImpl := destination.(*subscriberImpl[T])
+		if !isImpl || mode == ConcurrencyModeUnsafe || impl.mode == ConcurrencyModeSafe || impl.mode == mode {
+			return subscriber
+		}
 	}
 
 	subscriber := &subscriberImpl[T]{
